@@ -27,6 +27,8 @@ pub const EDIT_KINDS: &[&str] = &[
     "prepend_header",
     "change_type_annotation",
     "toggle_pub",
+    "edit_string_literal",
+    "shift_space_in_line",
 ];
 
 const NEW_ITEMS: &[&str] = &[
@@ -53,6 +55,8 @@ const NEW_STATEMENTS: &[&str] = &[
     "    let _arr = array![1, 2, 3];",
     "    // a comment inside a body",
     "    let _s: ByteArray = \"text\";",
+    "    let _m = array![undefined_zz,  1];",
+    "    println!(\"{}\",  missing_var);",
 ];
 
 fn lines_of(s: &str) -> Vec<String> {
@@ -412,6 +416,116 @@ pub fn apply(kind: &str, cur: &str, rng: &mut Rng) -> Option<String> {
             let mut s = cur.to_string();
             s.replace_range(at..at + from.len(), to);
             Some(s)
+        }
+        "edit_string_literal" => {
+            // Change the text inside a "..." or '...' literal (messages, notes, short strings).
+            let spots: Vec<(usize, usize)> = {
+                let mut v = vec![];
+                for q in ['"', '\''] {
+                    let idx: Vec<usize> = cur.match_indices(q).map(|(i, _)| i).collect();
+                    for w in idx.chunks(2) {
+                        if w.len() == 2 && w[1] > w[0] + 1 && !cur[w[0]..w[1]].contains('\n') {
+                            v.push((w[0] + 1, w[1]));
+                        }
+                    }
+                }
+                v
+            };
+            if spots.is_empty() {
+                return None;
+            }
+            let (a, b) = spots[rng.below(spots.len())];
+            let mut at = a + rng.below(b - a);
+            while !cur.is_char_boundary(at) {
+                at -= 1;
+            }
+            let mut s = cur.to_string();
+            match rng.below(3) {
+                0 => s.insert(at, ['x', ' ', '9', 'Z'][rng.below(4)]),
+                1 => {
+                    let ch_len = s[at..].chars().next().map(|c| c.len_utf8()).unwrap_or(1);
+                    if at + ch_len <= b {
+                        s.replace_range(at..at + ch_len, "");
+                    }
+                }
+                _ => s.insert_str(at, "ed"),
+            }
+            Some(s)
+        }
+        "shift_space_in_line" => {
+            // Move one space from one place of a line to another: the line keeps its length, tokens
+            // move by one column. Lines with macro calls are preferred (their arguments are copied
+            // into generated code and mapped back).
+            let has_macro = |l: &String| l.contains("![") || l.contains("!(");
+            let mut cands: Vec<usize> = (0..n).filter(|i| has_macro(&lines[*i]) && lines[*i].trim().contains(' ')).collect();
+            if cands.is_empty() || rng.chance(1, 3) {
+                cands = (0..n).filter(|i| lines[*i].trim().contains(' ') && !lines[*i].contains('"')).collect();
+            }
+            if cands.is_empty() {
+                return None;
+            }
+            let i = cands[rng.below(cands.len())];
+            let l = lines[i].clone();
+            let b = l.as_bytes();
+            if !l.is_ascii() {
+                return None;
+            }
+            let indent = l.len() - l.trim_start().len();
+            // Positions outside string literals.
+            let mut outside = vec![true; b.len()];
+            let mut q: Option<u8> = None;
+            for (k, c) in b.iter().enumerate() {
+                match q {
+                    Some(d) => {
+                        outside[k] = false;
+                        if *c == d {
+                            q = None;
+                        }
+                    }
+                    None if *c == b'"' || *c == b'\'' => {
+                        q = Some(*c);
+                        outside[k] = false;
+                    }
+                    None => {}
+                }
+            }
+            let ident = |c: u8| c.is_ascii_alphanumeric() || c == b'_';
+            // A space may go when it is part of a run of spaces, or when its neighbours would not
+            // glue into one token.
+            let removable: Vec<usize> = (indent + 1..b.len().saturating_sub(1))
+                .filter(|k| b[*k] == b' ' && outside[*k])
+                .filter(|k| b[*k - 1] == b' ' || b[*k + 1] == b' ' || !(ident(b[*k - 1]) && ident(b[*k + 1])))
+                .filter(|k| !(b[*k - 1] == b'=' && b[*k + 1] == b'=') && !(b[*k - 1] == b'-' && b[*k + 1] == b'>'))
+                .collect();
+            // A space may come after an opening bracket or a comma, or before a closing bracket.
+            let insertable: Vec<usize> = (indent..b.len())
+                .filter(|k| outside[*k])
+                .filter_map(|k| match b[k] {
+                    b',' | b'[' | b'(' => Some(k + 1),
+                    b']' | b')' => Some(k),
+                    _ => None,
+                })
+                .collect();
+            if removable.is_empty() || insertable.is_empty() {
+                return None;
+            }
+            // Prefer a removal from a run of spaces (always safe).
+            let runs: Vec<usize> = removable.iter().copied().filter(|k| b[*k - 1] == b' ' || b[*k + 1] == b' ').collect();
+            let del = if !runs.is_empty() && rng.chance(3, 4) { runs[rng.below(runs.len())] } else { removable[rng.below(removable.len())] };
+            let ins = insertable[rng.below(insertable.len())];
+            if ins == del || ins == del + 1 {
+                return None;
+            }
+            let mut s = l.clone();
+            if ins > del {
+                s.insert(ins, ' ');
+                s.remove(del);
+            } else {
+                s.remove(del);
+                s.insert(ins, ' ');
+            }
+            lines[i] = s;
+            Some(join(&lines))
         }
         "toggle_pub" => {
             let spots: Vec<usize> = lines.iter().enumerate().filter(|(_, l)| l.starts_with("pub fn ") || l.starts_with("fn ") || l.starts_with("pub struct ") || l.starts_with("struct ")).map(|(i, _)| i).collect();
